@@ -26,7 +26,7 @@ import (
 	"github.com/tigerwill90/fox"
 )
 
-const rule = "cases = requests of 20 shapes (direct, two parameters, catch-all, hostname, ignored trailing slash, redirect, 404, 405, auto OPTIONS, manual Lookup with own writer, Lookup with nil writer, CloneWith) " +
+const rule = "cases = requests of 20 shapes (direct, two parameters, catch-all, hostname, ignored trailing slash, redirect, 404, 405, auto OPTIONS, manual Lookup with own writer, Lookup with nil writer, CloneWith, infix catch-alls with and without following parameters, 405/OPTIONS whose probing backtracks between hostname labels) " +
 	"each with a unique token in every observable field, in random order; every handler/middleware invocation compares all Context getters with its own request; clones re-read later; " +
 	"distinct by token; non-trivial when the previous user of the pooled context was a request of a different shape (sequential mode) or always (concurrent mode)"
 
@@ -477,8 +477,8 @@ func main() {
 		return
 	}
 	runtime.GOMAXPROCS(1)
-	sequential(run, newWorld(run), 0, int64(run.Pick(20000, 1000000)))
-	sequential(run, newWorldWith(run, true), 1<<40, int64(run.Pick(8000, 300000)))
+	sequential(run, newWorld(run), 0, int64(run.Pick(20000, 5000000)))
+	sequential(run, newWorldWith(run, true), 1<<40, int64(run.Pick(8000, 1500000)))
 	run.SetExtra("shape_pairs", fmt.Sprintf("every ordered pair of the %d request shapes is issued back to back at GOMAXPROCS=1 (the second request gets the context just released by the first) before the random phase; repeated on a router whose middleware forwards a CloneWith copy of the context on every scope", len(shapes)))
 }
 
@@ -522,7 +522,7 @@ func concurrent(run *kit.Run) {
 	var ctr atomic.Int64
 	var wg sync.WaitGroup
 	var stop atomic.Bool
-	n := int64(run.Pick(30000, 400000))
+	n := int64(run.Pick(30000, 2000000))
 	wg.Add(1)
 	go func() { // writer: keeps replacing the tree (with more parameters, so the context pools differ)
 		defer wg.Done()
